@@ -161,6 +161,13 @@ pub fn run(a: &Args) {
     for n in [":", "a:", ":a", "xmlns:", "xmlns", "x:", "::", "a::b", "xml:", "_", "-", "."] {
         seeds.push(format!("<r {n}=\"1\"><{n}/><{n} {n}=\"2\">t</{n}></r>", n = n).into_bytes());
     }
+    // names that end in a number at, and one past, the widths of the integer types, colliding after separator replacement;
+    // and numbers as whole local names / very long digit runs (anything that parses part of a name as an integer)
+    for num in ["255", "256", "65535", "65536", "4294967295", "4294967296", "18446744073709551615", "18446744073709551616",
+                "340282366920938463463374607431768211456", "007", "1e9", "-1"] {
+        seeds.push(format!("<r><n_{0}/><n-{0}/><n.{0} n_{0}=\"1\" n-{0}=\"2\"/></r>", num).into_bytes());
+        seeds.push(format!("<n_{0}><n_{0} x_{0}=\"1\"/><n-{0}>t</n-{0}></n_{0}>", num).into_bytes());
+    }
     let g = GenCfg::rich();
     for _ in 0..40 {
         let root = g.names[r.below(g.names.len())].clone();
